@@ -90,6 +90,13 @@ def run(ck):
                 baths.append(("UB", lam, (rng.choice([180.0, 350.0, 520.0]), rng.choice([30.0, 60.0]))))
         if rng.random() < 0.3:
             baths = [baths[0]] * n                # the usual "one bath for all pigments" set-up
+        if s == 1:
+            # boundary in every run: an exciton gap of many kT - the uphill rate is orders of magnitude below the downhill one
+            n, T = 2, 77.0
+            energies = [12000.0, 12400.0]
+            coup = [[0.0, 60.0], [60.0, 0.0]]
+            baths = [("OB", 40.0, 100.0), ("OB", 20.0, 60.0)]
+            far = False
         inp = {"sites": n, "energies_cm": energies, "couplings_cm": coup, "baths": baths, "T": T}
         unequal = len({b[1] for b in baths}) > 1
         try:
